@@ -46,19 +46,27 @@ def _fill_chunk(args):
             for tail in sorted({0, 1, 2, missing, missing + 1}):
                 if head and tail not in (0, missing):
                     continue
-                variants.append((present, head, tail))
-    for present, head, tail in variants:
+                variants.append((present, head, tail, 'sorted'))
+        # the order in which the exchange page lists its rows: newest first, and one late row appended at the end
+        if len(present) >= 2:
+            variants.append((present, 0, 0, 'newest-first'))
+            variants.append((present, 0, 1, 'first-row-last'))
+    for present, head, tail, order in variants:
         ids = ([-1] if head else []) + present + [n + k for k in range(tail)]
+        if order == 'newest-first':
+            ids = ids[::-1]
+        elif order == 'first-row-last':
+            ids = ids[1:] + ids[:1]
         given = [candle(i) for i in ids]
-        snapshot = [dict(c) for c in given if TS <= c['timestamp'] <= TS + (n - 1) * 60000]
-        case = {'n': n, 'present': present, 'before_start': head, 'after_end': tail}
+        snapshot = sorted([dict(c) for c in given if TS <= c['timestamp'] <= TS + (n - 1) * 60000], key=lambda c: c['timestamp'])
+        case = {'n': n, 'present': present, 'before_start': head, 'after_end': tail, 'order': order}
         out['n'] += 1
         try:
             res = _fill_absent_candles(list(given), TS, TS + (n - 1) * 60000)
         except Exception as e:
             bad('fill-raises', {'exc': type(e).__name__}, case, '_fill_absent_candles raised %r' % (e,))
             continue
-        if [c for c in given if TS <= c['timestamp'] <= TS + (n - 1) * 60000] != snapshot:
+        if sorted([c for c in given if TS <= c['timestamp'] <= TS + (n - 1) * 60000], key=lambda c: c['timestamp']) != snapshot:
             bad('fill-mutates-input', {}, case, 'provided candles were modified')
         ts = [c['timestamp'] for c in res]
         if ts != [TS + i * 60000 for i in range(n)]:
@@ -73,14 +81,16 @@ def _fill_chunk(args):
             t = TS + i * 60000
             if t in byts:
                 if {k: c.get(k) for k in byts[t]} != byts[t]:
-                    bad('fill-changes-provided', {}, case, 'provided candle of minute %d came back as %r' % (i, c))
+                    bad('fill-changes-provided', {'page_order': order}, case, 'provided candle of minute %d came back as %r' % (i, c))
                 last_close = byts[t]['close']
             else:
                 want = last_close if last_close is not None else first_open
                 pos = 'leading' if last_close is None else 'inner'
                 vals = (c['open'], c['close'], c['high'], c['low'])
+                if order != 'sorted' and last_close is None and vals == (given[0]['open'],) * 4 and c['volume'] == 0:
+                    continue        # unsorted page: which open is "the first known" is ambiguous (first listed is accepted)
                 if vals != (want,) * 4 or c['volume'] != 0:
-                    bad('fill-value', {'position': pos}, case, 'filled minute %d is %r, expected flat at %r with zero volume' % (i, c, want))
+                    bad('fill-value', {'position': pos, 'page_order': order}, case, 'filled minute %d is %r, expected flat at %r with zero volume' % (i, c, want))
                 if c.get('exchange') != EX or c.get('symbol') != SYM:
                     bad('fill-value', {'position': 'identity'}, case, 'filled minute %d has exchange/symbol %r/%r' % (i, c.get('exchange'), c.get('symbol')))
     return out
@@ -375,7 +385,7 @@ def replay(case, ctx):
     if 'present' in case:
         n = case['n']
         mask = sum(1 << i for i in case['present'])
-        return [Violation.from_json(v) for v in _fill_chunk((n, [mask]))['viols'] if v['case'].get('after_end', 0) == case.get('after_end', 0) and v['case'].get('before_start', 0) == case.get('before_start', 0)]
+        return [Violation.from_json(v) for v in _fill_chunk((n, [mask]))['viols'] if v['case'].get('after_end', 0) == case.get('after_end', 0) and v['case'].get('before_start', 0) == case.get('before_start', 0) and v['case'].get('order', 'sorted') == case.get('order', 'sorted')]
     if 'spacing_gap_s' in case:
         gap, verdict = _spacing(case['spacing_gap_s'])
         want = 'accepted' if gap == 60 else 'ValueError'
